@@ -6,8 +6,8 @@
 
 namespace c04 {
 
-template <typename Char, std::size_t N>
-auto Run<Char, N>::do_construct(std::uint32_t code) -> void
+template <typename Char, std::size_t N, typename Tr>
+auto Run<Char, N, Tr>::do_construct(std::uint32_t code) -> void
 {
     auto const n = fitlen(op.a, N);
     bool alias   = (op.b % 5) == 0; // the source string is the target itself
@@ -48,7 +48,7 @@ auto Run<Char, N>::do_construct(std::uint32_t code) -> void
     }
     case CTOR_STR_POS_N: {
         auto pos = vpos(op.a, srcM.size());
-        auto cnt = qcount(op.b / 5, srcM.size() - pos);
+        auto cnt = qc(op.b / 5, srcM.size() - pos, pos);
         E t(srcE, pos, cnt);
         adopt("string(str,pos,n)", t, M(srcM, pos, cnt), *x, *mx);
         break;
@@ -70,7 +70,7 @@ auto Run<Char, N>::do_construct(std::uint32_t code) -> void
         auto s   = srcn(op.b, n);
         auto b   = pbuf(s);
         auto pos = vpos(op.b / 4, s.size());
-        auto cnt = qcount(op.c >> 4, s.size() - pos);
+        auto cnt = qc(op.c >> 4, s.size() - pos, pos);
         E t(SV(b.get(), b.n), pos, cnt);
         adopt("string(view,pos,n)", t, M(SSV(s), pos, cnt), *x, *mx);
         break;
@@ -154,7 +154,7 @@ auto Run<Char, N>::do_construct(std::uint32_t code) -> void
     }
     case ASSIGN_STR_POS_N: {
         auto pos = vpos(op.a, srcM.size());
-        auto cnt = qcount(op.b / 5, srcM.size() - pos);
+        auto cnt = qc(op.b / 5, srcM.size() - pos, pos);
         self(x->assign(srcE, pos, cnt), *x);
         mx->assign(srcM, pos, cnt);
         break;
@@ -197,7 +197,7 @@ auto Run<Char, N>::do_construct(std::uint32_t code) -> void
         auto s   = srcn(op.b, n);
         auto b   = pbuf(s);
         auto pos = vpos(op.b / 4, s.size());
-        auto cnt = qcount(op.c >> 4, s.size() - pos);
+        auto cnt = qc(op.c >> 4, s.size() - pos, pos);
         self(x->assign(SV(b.get(), b.n), pos, cnt), *x);
         mx->assign(SSV(s), pos, cnt);
         break;
